@@ -28,6 +28,13 @@ def respell_marker(rng, m):
 
 def make(rng, typ):
     """three spellings (a, b, c): a and b are meant to be equal for a non-obvious reason, c is a near miss"""
+    a, b, c = _make(rng, typ)
+    if rng.random() < 0.3:
+        b = rng.choice(CLONES) + b          # ... or because one is a clone of an equal object
+    return a, b, c
+
+
+def _make(rng, typ):
     if typ == "Version":
         v = GV.struct(rng)
         w = dict(v, release=list(v["release"]) + [0] * rng.choice([0, 1, 2]))
@@ -84,8 +91,26 @@ def make(rng, typ):
     raise KeyError(typ)
 
 
+CLONES = ("copy:", "deepcopy:", "pickle:")
+ROUTES = CLONES + ("&:", "in:", "req:")
+
+
+def plain(s):
+    """the text of a spelled object without the construction-route prefixes"""
+    while s.startswith(ROUTES):
+        s = s.split(":", 1)[1]
+    return s
+
+
 def build(typ, s):
     from packaging import markers, requirements, specifiers, tags, version
+    if s.startswith(CLONES):
+        # an equal object obtained by cloning: copy / deepcopy / a pickle round trip
+        import copy
+        import pickle
+        how, rest = s.split(":", 1)
+        x = build(typ, rest)
+        return copy.copy(x) if how == "copy" else copy.deepcopy(x) if how == "deepcopy" else pickle.loads(pickle.dumps(x, pickle.HIGHEST_PROTOCOL))
     if typ == "Version":
         return version.Version(s)
     if typ == "Specifier":
@@ -173,7 +198,7 @@ class C10(Prop):
             "zeros, case, clause order/duplication, name normalisation, white space, quotes, parentheses), c a near miss; "
             "checked: reflexive/symmetric/transitive ==, != is its negation, equal ⇒ equal hash ⇒ collapse in set/dict, "
             "equal ⇒ same behaviour under probes; non-trivial = a == b")
-    budget = {"quick": (0, 6000), "thorough": (0, 150000)}
+    budget = {"quick": (0, 3500), "thorough": (0, 150000)}
 
     def gen_laws(self, rng, n):
         for i in range(n):
@@ -197,7 +222,7 @@ class C10(Prop):
             x = build(typ, inp["a"])
             for spelled in (inp["b"], inp["a"]):
                 parsed = build(typ, spelled)
-                text = spelled.split(":", 1)[1] if spelled[:3] in ("&: ", "in:") or spelled[:2] == "&:" else spelled
+                text = plain(spelled)
                 want = (x == parsed)
                 e1, e2, n1, n2 = (x == text), (text == x), (x != text), (text != x)
                 if not (e1 == e2 == want and n1 == n2 == (not want)):
@@ -221,6 +246,18 @@ class C10(Prop):
         for i, x in enumerate(objs):
             if not (x == x) or (x != x) or hash(x) != hash(x):
                 return False, f"{typ}({inp['abc'[i]]!r}) is not equal to itself"
+            # a clone is known to be equal: == both ways, not !=, same hash, one element in a set, found as a dict key,
+            # same behaviour
+            import copy
+            import pickle
+            for how, y in (("copy.copy", copy.copy(x)), ("copy.deepcopy", copy.deepcopy(x)),
+                           ("pickle round trip", pickle.loads(pickle.dumps(x, pickle.HIGHEST_PROTOCOL)))):
+                if not (x == y and y == x) or (x != y) or (y != x):
+                    return False, f"{typ}({inp['abc'[i]]!r}): the {how} is not equal to the original"
+                if hash(x) != hash(y) or len({x, y}) != 1 or {x: 1}.get(y) != 1:
+                    return False, f"{typ}({inp['abc'[i]]!r}): the {how} hashes differently / does not collapse with the original"
+                if behaviour(typ, x, probes[:4]) != behaviour(typ, y, probes[:4]):
+                    return False, f"{typ}({inp['abc'[i]]!r}): the {how} behaves differently"
         for i in range(3):
             for j in range(3):
                 x, y = objs[i], objs[j]
